@@ -341,7 +341,8 @@ NoRespawnAfterOwnExit == ~gh.respawned
 \* task.cancel() is not called before the backoff has passed since the flag (resp. since the exit began)
 CancelNotBeforeBackoff == \A h \in Hs : (run[h].creq /\ ~stopping) => now >= run[h].when + DH[h].backoff
 \* a stop flag is never taken back, an abandoned or cancelled instance was flagged
-StagesInOrder == \A h \in Hs : (run[h].creq \/ run[h].aband \/ run[h].seen) => run[h].flag
+\* (the final sweep of an exiting operator cancels whatever is left, flagged or not)
+StagesInOrder == \A h \in Hs : ((run[h].creq /\ ~stopping) \/ run[h].aband \/ run[h].seen) => run[h].flag
 \* C06: the finalizer is not withdrawn from a matching object marked for deletion under a live, entitled daemon
 FinalizerHeld == ~gh.early
 \* the instances of a timer or a daemon that is in sight are flagged whenever the processed view is a deleting one
